@@ -76,7 +76,9 @@ def stitchDownW : Nat → Option Str → Prog (List IndexEntry)
       else
         let more ← stitchDownW b last'
         pure (es ++ more)
-    else stitchDownW b last
+    else
+      if ← unwrapOr (isFile (.hunk b 0)) false then logError (.bandHeadMissing b)
+      stitchDownW b last
 
 /-- `stitchAll` over the reader `rd`. -/
 def stitchAllW (b : Nat) : Prog (List IndexEntry) := do
